@@ -46,7 +46,16 @@ class C15(Harness):
         int_cells = bool(ctx.fresh_bool("int_cells"))  # integer-valued panel (arbitrary magnitude) instead of reals
         mk = ctx.fresh_int if int_cells else ctx.fresh_real
         toks = [[[mk("x_%d_%d_%d" % (i, j, t)) for t in range(nt)] for j in range(nc)] for i in range(ni)]
-        return {"x": toks, "custom_names": bool(ctx.fresh_bool("custom_names")), "int_cells": int_cells}
+        inp = {"x": toks, "custom_names": bool(ctx.fresh_bool("custom_names")), "int_cells": int_cells}
+        if nc >= 2 and not int_cells:
+            # the real-valued part of the mixed-dtype panel: one symbolic value in [-2, 2] (a cast to the integer dtype of
+            # the first variable would have to enumerate its truncations), the others fixed fractions
+            from fractions import Fraction
+
+            xm = ctx.fresh_real("xm")
+            ctx.assume((xm >= -2) & (xm <= 2))
+            inp["xm"] = [[[xm if (i, j, t) == (0, 1, 0) else Fraction(2 * (i + j + t) + 1, 4) for t in range(nt)] for j in range(nc)] for i in range(ni)]
+        return inp
 
     # ------------------------------------------------------------------
     def scenario(self, W, inp, cell):
@@ -195,6 +204,30 @@ class C15(Harness):
                 col.append(pd.Series(v, index=range(i, i + nt)))
             offs[nm] = col
         out["offset_labels"] = {"2d": canon("2d", dp.from_nested_to_2d_array(offs))[0], "3d": canon("3d", dp.from_nested_to_3d_numpy(offs))[0]}
+        if nc >= 2:
+            # a long table whose integer variable identifiers do not sort alike as numbers and as text (2, 10, 100),
+            # rows in shuffled order: variables come back ordered by identifier
+            ids = [2, 10, 100][:nc]
+            rows = [(i, ids[j], t, x[i][j][t]) for j in reversed(range(nc)) for i in range(ni) for t in range(nt)]
+            lt = pd.DataFrame({"case_id": [r[0] for r in rows], "dim_id": [r[1] for r in rows], "reading_id": [r[2] for r in rows]})
+            lt["value"] = pd.Series([r[3] for r in rows], dtype=object if sym else cdt)
+            ln = dp.from_long_to_nested(lt)
+            out["long_int_ids"] = {"vals": canon("nested", ln)[0], "cols": [str(c) for c in ln.columns]}
+            # a panel whose first variable is integer-typed (counts) and whose other variables are real-valued
+        if nc >= 2 and inp.get("xm"):
+            counts = [[3 * i + t + 1 for t in range(nt)] for i in range(ni)]
+            xm = inp["xm"]
+            mixed = pd.DataFrame()
+            mixed["count"] = [pd.Series(np.array(counts[i], dtype="int64")) for i in range(ni)]
+            for j in range(1, nc):
+                col = []
+                for i in range(ni):
+                    v = np.empty(nt, dtype=object if sym else float)
+                    for t in range(nt):
+                        v[t] = xm[i][j][t]
+                    col.append(pd.Series(v))
+                mixed[names[j]] = col
+            out["mixed_dtype"] = {"counts": counts, "3d": canon("3d", dp.from_nested_to_3d_numpy(mixed))[0], "check_X": canon("3d", vp.check_X(mixed, coerce_to_numpy=True))[0]}
         if nc == 1:
             # table -> nested with the caller's own instance labels (a fold of a larger panel, ids ...)
             labs = [10 - 3 * i for i in range(ni)]
@@ -242,6 +275,23 @@ class C15(Harness):
             P.check("column-names-preserved", cols == names, {"coercion": k, "cols": cols, "want": names})
         for rep_, vals_ in out.get("offset_labels", {}).items():
             same(vals_, "cell-preserved", None, {"path": "nested(per-instance time labels)->%s" % rep_})
+        if "long_int_ids" in out:
+            li = out["long_int_ids"]
+            same(li["vals"], "cell-preserved", None, {"path": "long(integer ids 2,10,..)->nested"})
+            P.check("column-names-preserved", li["cols"] == ["var_%d" % j for j in range(nc)], {"path": "long(integer ids 2,10,..)->nested", "cols": li["cols"]})
+        if "mixed_dtype" in out and not inp.get("int_cells"):
+            md = out["mixed_dtype"]
+            for key in ("3d", "check_X"):
+                vals = md[key]
+                d = {"path": "nested(int first variable, real others)->%s" % key}
+                ok_shape = len(vals) == ni and all(len(r) == nc for r in vals) and all(len(c) == nt for r in vals for c in r)
+                P.check("shape-preserved", ok_shape, d)
+                if ok_shape:
+                    for i in range(ni):
+                        for t in range(nt):
+                            P.eq("cell-preserved", vals[i][0][t], md["counts"][i][t], d)
+                            for j in range(1, nc):
+                                P.eq("cell-preserved", vals[i][j][t], inp["xm"][i][j][t], d)
         if "table_back" in out:
             tb = out["table_back"]
             same(tb["vals"], "cell-preserved", None, {"path": "nested->2d->nested(index=labels)"})
